@@ -55,8 +55,8 @@ class TState:
 
 
 class Replay:
-    """follow `prefix` (thread ids, one per branching step), then continue the current thread while it is enabled
-    (lowest enabled id otherwise)"""
+    """follow `prefix` (thread ids, one per step at which more than one thread was enabled), then continue the current
+    thread while it is enabled (lowest enabled id otherwise)"""
 
     def __init__(self, prefix=()):
         self.prefix = list(prefix)
@@ -114,7 +114,7 @@ class DSched:
         self.threads = []
         self.by_ident = {}
         self.current = None
-        self.steps = []             # (chosen, enabled tuple, cur, kind) for branching steps only
+        self.steps = []             # (chosen, enabled tuple, cur, kind) for every step with more than one enabled thread
         self.nsteps = 0
         self.deadlock = None        # list of (thread name, lock name) when detected
         self.aborting = False
@@ -219,7 +219,7 @@ class DSched:
             self._abort()
             self.done_evt.set()
             raise SchedAbort()
-        branching = kind in BRANCH_KINDS and len(enabled) > 1
+        branching = len(enabled) > 1
         cur = me.tid if can_continue else None
         choice = self.policy.choose(cur, enabled, kind, branching)
         if branching:
@@ -494,7 +494,7 @@ def enumerate_schedules(run_once, bound, cap, rng=None):
         for i in range(len(prefix), len(steps)):
             chosen, enabled, cur, kind = steps[i]
             for alt in enabled:
-                if alt == chosen:
+                if alt == chosen or kind not in BRANCH_KINDS:
                     continue
                 cost = p + (1 if (cur is not None and cur in enabled and alt != cur) else 0)
                 if cost > bound:
